@@ -12,7 +12,7 @@ LEVEL = "proof"
 EXPLANATION = (
     "Lean theorems for every commutative ring, dimension and word: wordValue of nil/append/inverse letter/free "
     "reduction/formal inverse; compose_hom functoriality with instances conjugate, dual, astype, subgroup, tensor "
-    "(= Kronecker), symmetric square, gln adjoint; Fox fundamental formula and cocycle*coboundary = 1 - rho(r). "
+    "(= Kronecker), symmetric square, gln/sln adjoint; Fox fundamental formula and cocycle*coboundary = 1 - rho(r). "
     "The model (GT.Model.Words/Rep) is executed over Q and Z on the same assignment histories / words as the "
     "real Representation class and compared; float/complex/int oracles evaluate the laws on the implementation.")
 ASSUMPTIONS = [
